@@ -243,6 +243,7 @@ def py_functions(tier):
     out = []
     recv_shapes = [[0], [1], [2], [3], [1, 1], [0, 2]] if tier == "quick" else [[0], [1], [2], [3], [4], [6], [1, 1], [0, 2], [2, 1], [1, 0, 1]]
     send_shapes = [0, 1, 3] if tier == "quick" else [0, 1, 2, 3, 5]
+    maxcuts = 4 if tier == "quick" else 6
     for lens in recv_shapes:
         total = sum(3 + l for l in lens)
         ps, pre, frames, exp = [], [], [], []
@@ -254,7 +255,7 @@ def py_functions(tier):
             pre += ["0 <= %s < 128" % x for x in bs]
             frames.append("frame(i%d, bytes([%s]))" % (i, ", ".join(bs)))
             exp.append("(i%d, bytes([%s]).decode('utf-8'))" % (i, ", ".join(bs)))
-        cs = ["c%d" % k for k in range(total)]
+        cs = ["c%d" % k for k in range(min(total, maxcuts))]
         ps += [c + ": int" for c in cs]
         name = "recv_" + "_".join(map(str, lens))
         body = "def %s(%s) -> bool:\n    \"\"\"\n    pre: %s\n    post: __return__\n    \"\"\"\n" % (name, ", ".join(ps), " and ".join(pre))
@@ -262,10 +263,10 @@ def py_functions(tier):
         body += "    got = [st.recv_msg() for _ in range(%d)]\n" % len(lens)
         body += "    return got == [%s] and len(sock.pending) == 0\n" % ", ".join(exp)
         out.append((name, body, "recv_msg decodes %d frame(s) with payload lengths %s exactly as sent, however recv() splits the stream, and stops at the frame boundary" % (len(lens), lens),
-                    dict(shape="frames with payload lengths %s" % lens, chunks=total)))
+                    dict(shape="frames with payload lengths %s" % lens, chunks=min(total, maxcuts))))
     for l in send_shapes:
         bs = ["b%d" % j for j in range(l)]
-        cs = ["c%d" % k for k in range(3 + l)]
+        cs = ["c%d" % k for k in range(min(3 + l, maxcuts))]
         ps = ["inst: int"] + [x + ": int" for x in bs + cs]
         pre = ["0 <= inst <= 255"] + ["0 <= %s < 128" % x for x in bs]
         name = "send_%d" % l
@@ -273,7 +274,7 @@ def py_functions(tier):
         body += "    data = bytes([%s]).decode('utf-8')\n    sock = FakeSocket(b'', [%s])\n    st = MessageStream(sock)\n    st.send_msg(inst, data)\n" % (", ".join(bs), ", ".join(cs))
         body += "    return bytes(sock.sent) == frame(inst, data.encode())\n"
         out.append((name, body, "send_msg puts inst + 2-byte big-endian length + data (%d bytes) on the wire, however send() splits it" % l,
-                    dict(shape="payload length %d" % l, chunks=3 + l)))
+                    dict(shape="payload length %d" % l, chunks=min(3 + l, maxcuts))))
     return out
 
 
@@ -308,7 +309,7 @@ def crosshair(rep, s, tier):
     for (fn, _, what, meta), (rc, out, dt) in zip(funcs, results):
         o = Obligation(key="framing-python/%s" % fn, engine="CrossHair (z3) on the class text cut from the real script",
                        functions=["repl_server.py MessageStream.recv_msg / send_msg"],
-                       shape=meta["shape"] + "; %d scripted chunk sizes (any int; out-of-range means 'everything available')" % meta["chunks"],
+                       shape=meta["shape"] + "; the first %d recv()/send() calls take a symbolic chunk size (any int; out-of-range means 'everything available'), later calls transfer everything" % meta["chunks"],
                        symbolic=["instruction byte", "payload bytes (ASCII)", "chunk size of every recv()/send() call"],
                        bounds={"per_condition_timeout_s": cap},
                        solver="z3 (inside CrossHair)", solver_s=round(dt, 2), detail=out.strip()[-1200:])
